@@ -872,6 +872,10 @@ func checkContent(res *prodResult, vs *violSet, vtag string, ms *msgSpec, r sara
 		// an empty value is a record, a null value is a tombstone
 		vs.add("content-mismatch", vtag+",value-null-vs-empty", fmt.Sprintf("%s/%d offset %d: value stored as nil=%v for message id=%d whose value is nil=%v", t, p, r.Offset, r.Value == nil, ms.ID, wantVal == nil))
 	}
+	if !sc.Version.IsAtLeast(sarama.V0_11_0_0) && len(ms.Headers) > 0 {
+		// the wire format of this version has no place for headers: the message must have been refused
+		vs.add("content-mismatch", vtag+",headers-dropped", fmt.Sprintf("%s/%d offset %d: message id=%d was written without its %d header(s) (version %s cannot carry them; the producer has to refuse the message)", t, p, r.Offset, ms.ID, len(ms.Headers), sc.Version))
+	}
 	if sc.Version.IsAtLeast(sarama.V0_11_0_0) && !headersEqual(ms.Headers, r.Headers) {
 		vs.add("content-mismatch", vtag+",headers", fmt.Sprintf("%s/%d offset %d: headers %v stored for message id=%d whose headers are %v", t, p, r.Offset, r.Headers, ms.ID, ms.Headers))
 	}
